@@ -121,6 +121,37 @@ func sharingConfigs(env *engine.Env) []fixture.Doc {
 	docs = append(docs, mk([]model.Entry{{Src: "etc/app.conf", Dst: "/opt/thing"}, {Src: "etc/empty", Dst: "/opt/thing/below", Packager: "rpm"}, {Src: "bin/app", Dst: "/usr/bin/app"}}, nil))
 	// a platform other than linux (deb, rpm and ipk take one)
 	docs = append(docs, mk(plain, func(d fixture.Doc) { d["platform"] = "freebsd"; d["arch"] = "arm64" }))
+	// relation lists far longer than a line (a meta package), every kind
+	docs = append(docs, mk(plain, func(d fixture.Doc) {
+		long := func(prefix string) []any {
+			var l []any
+			for i := 0; i < 70; i++ {
+				if i%4 == 0 {
+					l = append(l, fmt.Sprintf("%s-library-%03d (>= 1.%d)", prefix, i, i))
+				} else {
+					l = append(l, fmt.Sprintf("%s-library-%03d", prefix, i))
+				}
+			}
+			return l
+		}
+		for _, k := range []string{"depends", "provides", "replaces", "conflicts", "recommends", "suggests"} {
+			d[k] = long(k)
+		}
+		d["deb"] = map[string]any{"breaks": long("breaks"), "predepends": long("predepends")}
+		d["ipk"] = map[string]any{"predepends": long("predepends")}
+	}))
+	// lists that lose items while the document is read (references that expand to nothing), next to versioned items and
+	// names stated under several relations; trigger names stated under an awaiting and a no-await directive
+	docs = append(docs, mk(plain, func(d fixture.Doc) {
+		d["provides"] = []any{"virt (= 1.0)", "${NFPM_VERIF_UNSET}", "virt2 (>= 2)", "$NFPM_VERIF_UNSET", "pkg"}
+		d["conflicts"] = []any{"virt", "${NFPM_VERIF_UNSET}", "virt2 (<< 1)", "other"}
+		d["replaces"] = []any{"virt (<< 1.0)", "pkg"}
+		d["depends"] = []any{"${NFPM_VERIF_UNSET}", "a (>= 1)", "b"}
+		d["deb"] = map[string]any{"triggers": map[string]any{
+			"interest": []any{"trig-a", "trig-shared", "trig-b"}, "interest_noawait": []any{"trig-shared"},
+			"activate": []any{"trig-c", "trig-shared2", "trig-d"}, "activate_noawait": []any{"trig-shared2", "trig-c"},
+			"interest_await": []any{"trig-shared", "trig-e"}, "activate_await": []any{"trig-d", "trig-f"}}}
+	}))
 	// everything together
 	all := mk(append(append([]model.Entry{}, partial...), tagged[1:]...), func(d fixture.Doc) {
 		d["overrides"] = map[string]any{"deb": map[string]any{"umask": 0o077, "depends": []any{"only-deb"}}, "rpm": map[string]any{"rpm": map[string]any{"signature": map[string]any{"key_id": "cccc3333"}}}}
